@@ -477,7 +477,7 @@ func c04r6(r *R) {
 		fn := r.method(mpkg, recv, "writeErrorResponse")
 		ps, _ := enumPaths(fn, 1024, 1)
 		var why []string
-		n := 0
+		n, nRestored := 0, 0
 		for _, p := range ps {
 			ei := p.eventIndex(0, "call", prefix("(*martian.Proxy).errorResponse($0.Proxy, "))
 			if ei < 0 {
@@ -500,9 +500,15 @@ func c04r6(r *R) {
 					restored = true
 				}
 			}
+			if restored {
+				nRestored++
+			}
 			if nonEmpty != restored {
 				why = append(why, fmt.Sprintf("challenge present=%v but restored after the modifiers=%v", nonEmpty, restored))
 			}
+		}
+		if nRestored == 0 {
+			why = append(why, "the challenge is never restored after the response modifiers: hop-by-hop removal deletes Proxy-Authenticate from the proxy's own 407")
 		}
 		r.check(n > 0 && len(why) == 0, recv+".writeErrorResponse#challenge-survives", fn.Pos(), "Proxy-Authenticate captured before modifyResponse and restored before the write whenever it was set", strings.Join(dedupStrings(why), "; "))
 	}
